@@ -464,10 +464,12 @@ def run(run, model):
     run.try_rule(r01_1, model)
     run.try_rule(r01_5, model)
     from rules import c11
-    for fn_ in (c11.r11_5, c11.r11_6, c11.r11_7, c11.r11_8, c11.r11_9, c11.r11_10):
+    # the precedence table is part of what a source text means: `a || b && c` compiled as `(a || b) && c` is faithfully translated wrong
+    for fn_ in (c11.r11_1, c11.r11_5, c11.r11_6, c11.r11_7, c11.r11_8, c11.r11_9, c11.r11_10):
         run.try_rule(fn_, model)
     run.try_rule(c09.r09_1, model)
     run.try_rule(c09.r09_3, model)
+    run.try_rule(c09.r09_12, model)
     run.try_rule(c06.r06_2, model)
     run.try_rule(c06.r06_7, model)
     run.try_rule(c06.r06_8, model)
